@@ -3,14 +3,16 @@
 Creates /verif/mutants/<name>.patch by replacing <old> with <new> in /repo (then reverting)."""
 import sys, subprocess, os
 name, rel, old, new = sys.argv[1:5]
-p = os.path.join("/repo", rel)
+REPO = os.environ.get("MUT_REPO", "/repo")
+p = os.path.join(REPO, rel)
 s = open(p).read()
 n = s.count(old)
 if n != 1:
     print(f"ERROR: pattern occurs {n} times in {rel}"); sys.exit(1)
 open(p, "w").write(s.replace(old, new))
-diff = subprocess.check_output(["git", "-C", "/repo", "diff"], text=True)
-subprocess.check_call(["git", "-C", "/repo", "checkout", "--", rel])
-os.makedirs("/verif/mutants", exist_ok=True)
-open(f"/verif/mutants/{name}.patch", "w").write(diff)
+diff = subprocess.check_output(["git", "-C", REPO, "diff"], text=True)
+subprocess.check_call(["git", "-C", REPO, "checkout", "--", rel])
+OUTD = os.environ.get("MUT_OUT", "/verif/mutants")
+os.makedirs(OUTD, exist_ok=True)
+open(f"{OUTD}/{name}.patch", "w").write(diff)
 print(f"wrote mutants/{name}.patch ({len(diff.splitlines())} lines)")
